@@ -146,7 +146,19 @@ pdgstrf_thread_init(SuperMatrix *A, SuperMatrix *L, SuperMatrix *U,
 
     /* Allocate global storage common to all the factor routines */
     *info = pdgstrf_MemInit(n, Astore->nnz, options, L, U, &Glu);
-    if ( *info ) return NULL;
+    if ( *info ) {
+	/* Workspace query or lack of memory: no factorization follows, so
+	   release what has been set up for it. */
+	extern ExpHeader *dexpanders;
+	ParallelFinalize(pxgstrf_shared);
+	SUPERLU_FREE(inv_perm_r);
+	SUPERLU_FREE(inv_perm_c);
+	SUPERLU_FREE(xprune);
+	SUPERLU_FREE(ispruned);
+	SUPERLU_FREE(dexpanders);
+	dexpanders = 0;
+	return NULL;
+    }
 
     /* Prepare arguments to all threads. */
     pdgstrf_threadarg = (pdgstrf_threadarg_t *) 
